@@ -1,6 +1,4 @@
 
-val negb : bool -> bool
-
 type nat =
 | O
 | S of nat
